@@ -772,11 +772,15 @@ func (w *World) resolve(c *Contract, si *sigInfo) error {
 		case "onassign":
 			// ghost update at every assignment whose left-hand side has the given text
 			var site ast.Node
+			nth := 0
 			ast.Inspect(c.Body, func(n ast.Node) bool {
 				if as, ok := n.(*ast.AssignStmt); ok && site == nil {
 					for _, l := range as.Lhs {
 						if exprText(w.Fset, l) == d.CallText {
-							site = as
+							nth++
+							if d.CallOrd == 0 || d.CallOrd == nth {
+								site = as
+							}
 						}
 					}
 				}
